@@ -218,7 +218,8 @@ func (c *EventCache) getEventKey(event *Event) string {
 			return len(t) >= 1 && t[0] == "d"
 		})
 		if idx < 0 {
-			return ""
+			// a missing d tag is an empty d value; the address still belongs to its author
+			return fmt.Sprintf("%d:%s:", event.Kind, event.Pubkey)
 		}
 
 		d := ""
